@@ -110,6 +110,22 @@ let () =
     if hybrid then show_vec (BlockSpmv.hybrid_residual sc b f bm x r)
     else show_bvec b (Kernels.residual s (BlockSpmv.as_rhs sc b f) bm (BlockSpmv.as_rhs sc b x) (BlockSpmv.as_rhs sc b r)) in
   reg "bresid" (resid_like false); reg "hresid" (resid_like true);
+  (* backend::vmul with a vector of BLOCKS x and re-interpreted scalar vectors y, z (builtin.hpp, mixed vmul_impl):
+     Kernels.vmul at BlockS;  bvmul b <n> <n blocks, row-major cells> <y> alpha beta <z> *)
+  reg "bvmul" (fun t ->
+    let b = t_i t in check_b b;
+    let x = t_list t (t_blk b) in let y = t_vec t in let alpha = t_q t in let beta = t_q t in let z = t_vec t in
+    if List.length y <> b * List.length x || List.length z <> b * List.length x then raise (Model_exc "invalid_argument");
+    let s = inst b in
+    show_bvec b (Kernels.vmul s (embed b alpha) x (BlockSpmv.as_rhs sc b y) (embed b beta) (BlockSpmv.as_rhs sc b z)));
+  (* the re-interpretation itself at the complex instance: a vector of n std::complex numbers viewed through
+     b x b complex blocks = BlockSpmv.as_rhs at S0 = ComplexS: n/b elements of b complex numbers each *)
+  reg "cview" (fun t ->
+    let b = t_i t in check_b b; let n = t_i t in
+    let x = List.init n (fun _ -> Obj.repr (sc.Scalar.s0, sc.Scalar.s0)) in
+    let v = BlockSpmv.as_rhs cs b x in
+    let per = match v with [] -> b | a :: _ -> List.length (BlockInst.blk_col0 cs b (Obj.obj a)) in
+    Printf.sprintf "elements=%d complex_per_element=%d bytes_per_element=%d" (List.length v) per (16 * per));
 
   (* scaled_problem over Eigen block values, scalar scale vector (or scale_diagonal when dflt = 1):
      scaled_eig b <bcrs> <dflt> <s> <x (n*b scalars)> *)
